@@ -34,13 +34,14 @@ RulesFor(p) == asked[CacheKey(p)]
 
 \* ---- C15_Exact ------------------------------------------------------------------------------
 C15_Exact ==
-  (HookE /\ CustomOn /\ Known(E.req.parent))
+  (HookE /\ CustomOn /\ Known(E.req.parent) /\ ~HasErr(RulesFor(E.req.parent), E.req.parent, tcz.pNs))
   => LET p == E.req.parent
          exp == { OKey(o) : o \in Selected(RulesFor(p), p, tcz.pNs, LiveObjs) }
          got == { OKey(o) : o \in RelObjs(E.req) }
-     IN \/ (~HasErr(RulesFor(p), p, tcz.pNs) /\ got = exp)
-        \/ Report("C15", "C15_Exact", <<"hook", E.hook, "parent", <<p.ns, p.name>>, "missing", exp \ got, "unexpected", got \ exp,
-                                        "errRules", HasErr(RulesFor(p), p, tcz.pNs)>>)
+     IN \/ got = exp
+        \/ Report("C15", "C15_Exact", <<"hook", E.hook, "parent", <<p.ns, p.name>>, "missing", exp \ got, "unexpected", got \ exp>>)
+\* rules the statement calls an error never reach the sync / finalize hook (reported once, by C15_Errors at the end of
+\* the sync)
 \* without customize hook nothing is related
 C15_ExactOff ==
   (HookE /\ tcz.kind # "none" /\ ~tcz.customize)
